@@ -1,6 +1,7 @@
 CONSTANTS
   Dev_AdoptClientSecurity = FALSE
   Dev_IgnoreSigFailure = FALSE
+  Dev_TokenKeyLimits = FALSE
   Dev_AdvertiseExtra = TRUE
   Dev_DropPolicy = ""
   Dev_WrongTokenPolicy = FALSE
